@@ -20,7 +20,13 @@ MODEL_CASE_TIMEOUT = 5.0
 RULE = ("scenarios = channel (4 writer-lock kinds x 3 reader modes x requested capacity 1..9 x 1..4 writers with scripts "
         "of tagged messages that force wrap-around and FULL, one reader), channel by RAW flags value ('chanflags': every one of the 256 flag "
         "bytes = 16 writer-lock selectors x 16 reader selectors incl. the invalid / out-of-range ones, plus flags with higher bits set, "
-        "each with 2..3 concurrent writers -- one writer when the selector is WRITE_SINGLE -- capacity 3..8, messages that wrap), array blocking queue (capacity 1..4, 1..3 "
+        "each with 2..3 concurrent writers -- one writer when the selector is WRITE_SINGLE -- capacity 3..8, messages that wrap), large rings "
+        "(requested capacity 16, 17, 31, 32, 33, 64 in all 12 modes: 'stop' = the reader leaves after 0..5 messages and the writers "
+        "fill the ring to capacity - 2 unread, are refused and give up after maxtry FULL results; 'first' = list schedule running the "
+        "writers first so that the backlog reaches capacity - 2 before the reader drains; 'mix' = random schedule with an early-stopping "
+        "reader or a full drain), adversarial MESSAGE VALUES in a third of the channel scenarios (NULL, (void*)-1, small integers equal "
+        "to cursor values / the capacity, one harness object carried by several messages), single-threaded fill / drain of rings of up "
+        "to 2^17 slots without the scheduler ('bigfill': cursors beyond 2^16, refusal exactly at capacity - 2, order), array blocking queue (capacity 1..4, 1..3 "
         "producers, 1..3 consumers) and double buffer (capacity 1..4, blocking and non-blocking, 1..3 writers), each "
         "under seeded random schedules (context-switch density 20/50/80/95 %, weak-CAS spurious failure 0/30 %, condvar "
         "spurious wake-up 0/20 %, futex wait interrupted (EINTR) / spuriously woken 0/20/40 % in the sync-reader and synclock-writer scenarios), hand-written list schedules and model-guided list schedules (walks of the extracted model that reach the proofs' case-split windows), run on the real code under the deterministic "
@@ -29,7 +35,8 @@ RULE = ("scenarios = channel (4 writer-lock kinds x 3 reader modes x requested c
         "contended lock; distinct = distinct trace text")
 TRUSTED_BASE = [
     "modelled, not verified: sequentially consistent interleaving of atomic operations plus release/acquire views for the plain data (message slots, harness payloads) as stand-in for C11 (DRF-SC assumed, not proved); the view model orders write -> read only (the relaxed load of read_cursor before a slot is reused leaves the previous lap's read and the new write formally unordered: reported as an observation); futex = atomic compare-and-block/wake, pthread mutex = exclusive ownership with acquire/release, condvar = Mesa with spurious wake-ups, as interposed by harness/vsched; real weak-memory reorderings cannot be exhibited on x86 under a serialised run",
-    "memory orders of the 13 atomic sites (9 in channel.c, 2 in spinlock.c, 2 in synclock.c) are re-extracted from the executed code into coq/gen/Params_C01.v on every run and the theorems' side condition (chan_mo_ok / lock_mo_ok) is discharged against them",
+    "memory orders of the 13 atomic sites (9 in channel.c, 2 in spinlock.c, 2 in synclock.c) are re-extracted from the executed code into coq/gen/Params_C01.v on every run and the theorems' side conditions (chan_mo_ok / chan_rd_mo_ok / lock_mo_ok) are discharged against them; the translator tie compares the memory-order arguments in the C text of every path with the same parameters",
+    "harness/vsched/vs_hooks.h re-defines every muggle_atomic_* macro with the __atomic_*_n builtin and the call-site memory order: the macro BODIES of muggle/c/base/atomic.h are not compiled into the driver and not tied here (the slicer sees the expansion clang produces from the real atomic.h, i.e. the builtin and the order argument, but not that the builtin honours it); muggle_sync_wait / wake (sync_obj_futex.c) are the scheduler's",
     "muggle_channel_init (flag -> function-pointer dispatch, created mutexes / condvar, capacity rounding incl. muggle_next_pow_of_2 as used there) is re-extracted by RUNNING it for every flags value in [0, 512) and every requested capacity in [0, 1025] (harness/drivers/c01_dispatch.c + nm for the static functions' names) into coq/gen/Params_C01.v and proved equal to the model's mode table; trusted: the probe program, nm, and that the function a name denotes is the one the model transcribes (checked by trace acceptance for the 12 valid modes)",
 ]
 ASSUMPTIONS = ["channel: exactly one reader thread; MUGGLE_CHANNEL_FLAG_WRITE_SINGLE => exactly one writer thread (documented usage)",
@@ -43,6 +50,10 @@ EVIDENCE_NOTES = [
     "muggle_channel_init is tied to the model by RE-EXTRACTION FROM THE EXECUTED CODE (the alternative to symbolic evaluation of the AST): harness/drivers/c01_dispatch.c, compiled from the working tree on every run, runs muggle_channel_init for every flags value in [0, 512) and for the requested capacities 0..1025 (+ requests that do not fit muggle_sync_t) and calls muggle_next_pow_of_2 around every power of two; the installed fn_lock / fn_unlock / fn_write / fn_wake / fn_read are resolved to the static functions' names with nm; the tables go into coq/gen/Params_C01.v; chan_dispatch_matches_model (complete sweep over the 512 flag values by vm_compute: return value, normalised flags, init_flags, created mutexes / condvar, five functions = the model's mode table flag_wk / flag_rm), chan_capacity_matches_model (refusals, capacity, initial cursors = model's initial state) and chan_capacity_rounding (for ALL requests: round_cap is the least power of two >= the request) and chan_dispatch_selects_flags_cfg (the installed functions are those of the configuration the flags theorems quantify over) are obligations; a behaviour-preserving restructuring of init (helpers, if-chains) leaves the tables unchanged",
     "flags quantifier: besides the 12 named modes the scenarios hand the RAW flags integer to muggle_channel_init ('chanflags <flags> ...' in harness/drivers/c01_driver.c; the cells are named after what init created, the driver does not decode the flags); the extracted model runs mk_cfg_flags (the mode table flag_wk / flag_rm of coq/C01/Dispatch.v) for the same integer and must accept the trace, the monitor decodes the flags from the documented meaning in channel.h (selector 0..3 / 0x00..0x20, anything else = mutex) independently of both; the quick tier runs all 256 flag bytes (input_distribution: flag_bytes_covered_of_256, selector_pairs_with_2plus_writers_of_240 = every (writer selector != WRITE_SINGLE, reader selector) pair with >= 2 concurrent writers, out_of_range_writer_selector_2plus_writers, flags_with_higher_bits) and search() sweeps them again with 2..4 writers under dense context switching (6 schedules per byte) when an obligation or the correspondence broke; corpus/C01/flags-*.case pin selectors 7, 15 and 11 + reader selector 8.  Theorems (coq/C01/ProofsFlags.v): chan_flags_exactly_once_in_order / chan_flags_payload_visible = the delivery theorems for EVERY integer flags value with the usage hypothesis only when flags & 15 = 3; chan_flags_writers_excluded = any other writer selector (0, 1, 2, 4..15) is a real lock for any number of writers (not the no-op kind, at most one writer between fn_lock and fn_unlock, nobody inside while the lock word is free); chan_flag_byte_exhaustive = the mode table reads the low byte only, selects the no-op lock exactly for selector 3 and sends out-of-range selectors to the mutex; chan_dispatch_selects_flags_cfg = for each of the 512 re-extracted rows the functions the CODE installed are those of mk_cfg_flags' configuration and no selector other than 3 installs the no-op lock; Examples chan_flags_nonvacuous (flags 0x07, writer 2 stopped at the mutex while writer 1 is inside) and chan_flags_nonvacuous_busy (0x2f, three writers)",
     "monitor: when the scheduler reports DEADLOCK / LIVELOCK in a channel scenario the first anomaly of the trace itself (cursor collision, FULL without full ring, wrong delivery, missing happens-before) is reported in front of the scheduler's verdict",
+    "read-before-overwrite (consumer side of the hand-over): coq/C01/ModelRC.v observes the channel model with a ghost (product system; the channel state is stepped unchanged: xreach_proj) that gives every slot read of the reader an epoch, lets a store >= release publish the storer's knowledge of completed reads on the atomic cell (mutex unlock / condition wait: on the mutex), joins it on acquiring operations -- the writer's load of read_cursor is taken as the acquiring side whatever its memory order (the library loads it relaxed: observation, as before) -- and counts slot stores not ordered after every earlier read of the same slot; chan_no_overwrite_before_read_completes: the counter is 0 for every schedule, any number of writers, any capacity, all 12 modes, under chan_rd_mo_ok (release store of read_cursor in the sync / busy readers; mutex mode unconditional) and lock_mo_ok; chan_rd_mo_ok is part of mo_sufficient (obligation c01_memory_orders_sufficient); chan_read_release_necessary: with a relaxed store a schedule with an uncovered overwrite exists (same channel state: nothing is visible on a sequentially consistent run); the model_search explores the product under the extracted orders and returns that witness; the monitor checks the same on the implementation traces (_mon_rdhb: the reader's store of read_cursor after read k must be a release store and the writer reusing the slot must have loaded a cursor value stored at or after it)",
+    "message values: the model has a value assignment g_val (message identity -> canonical code of the pointer value: own payload, NULL, (void*)-1, small integer, shared harness object) that occurs only in the reader's got / fld notes; chan_delivery_any_values (the delivery theorems for EVERY assignment; the NULL of a never-written slot is never returned as data), chan_state_value_independent / chan_trace_value_independent (parametricity: same schedule, any other assignment: same state, same operations); the drivers send such values ('v <tag>:<code>' lines), the monitor compares the received value codes positionally with the publication order; additional obligation chan_code_never_tests_payload from an AST scan (lib/props/c01_scan.py, clang JSON of channel.c / array_blocking_queue.c / double_buffer.c): a payload value (slot member data / datas[i], a void* parameter, a local assigned from one, through casts) is nowhere an operand of a comparison / arithmetic / logical / unary operator, converted to a truth value or an integer, a condition of if / while / for / ?: / switch, dereferenced, or handed to a function outside these files; it is a scan, not a proof about C",
+    "field widths: the probe prints sizeof / signedness / integer-ness of muggle_channel_t.capacity, write_cursor, read_cursor, cached_r_cur, write_synclock, the array blocking queue's capacity / take_idx / put_idx / cnt, the double buffer's capacity / cnt / non_blocking and the slot element types; obligation chan_field_widths_match_model (the cursors are 32-bit unsigned: futex word, equality test with the cached cursor); the 'bigfill' scenarios make a narrower cursor field visible as a concrete failing input (FULL after 65534 of 131070)",
+    "second tie (translator kind, DESIGN.md 4.4): lib/props/c01_slice.py slices the bodies of muggle_channel_write_sync / _busy / _mutex, muggle_channel_read_sync / _busy / _mutex (one loop iteration), the three wake functions, the public wrappers muggle_channel_write / muggle_channel_read and the array blocking queue's put / take (helpers inlined) out of the clang JSON AST of the C text of this run: every synchronisation operation (atomic load / store with its memory order, futex wait / wake, mutex lock / unlock, condition wait / notify, call through fn_lock / fn_write / fn_unlock / fn_wake / fn_read, helper call) becomes a labelled step appended to an event word in program order on each path, the index arithmetic and conditions between them become integer arithmetic with explicit 32-bit wrap (lib/leaftrans.py), a message is an opaque 64-bit value, the slots are a word array, calls of functions defined in the same file are inlined (helpers introduced or removed by a refactoring do not matter), a loop is cut after one iteration (on the 'not ready' path the function reports again = 1, which wait it entered and the futex's expected value; the event word is not compared there because how often the cursor is re-loaded before the cut depends on the loop's shape), break is structured with a flag, local aliases of the block array / of one block are followed; obligations chan_write_sync/_busy/_mutex_text_matches_model, chan_read_sync/_busy/_mutex_text_matches_model, chan_wake_text_matches_model, chan_wrappers_text_match_model, abq_text_matches_model: (i) generated = reference function (coq/C01/Slice.v, memory orders from code_params) on the whole domain -- capacity any power of two up to 2^31, cursors inside the ring, any slot contents, any message value -- by a decision tactic that does not look at the shape of the generated term (wraps discharged from the domain, x & (capacity-1) and x % capacity turned into the piecewise-linear ring successor, every conditional split, time-limited lia), (ii) the model's steps through the same function (cmicro / cop of Model.v, qmicro / qop of ModelQ.v) compute the same reference: result, cursor update, slot index, sequence of synchronisation operations with their memory orders.  An edit of a value, condition, memory order or synchronisation step on ANY path, also one no scenario reaches, breaks (i); trusted: clang 14 AST, the slicer and the translator.  NOT sliced: double_buffer.c (front / back pointer swap needs a different abstraction), muggle_channel_init (tied by re-extraction), the lock functions of spinlock.c / synclock.c (C04)",
     "coverage: the random, the model-guided and the corpus scenario families each cover all 12 modes x requested capacities {1, 2, 3, 4, 8} in the quick tier (input_distribution: modes_x_caps_covered_<family>_of_60 = 60)",
     "not theorems: freedom from lost wake-ups (property C03) is covered by the monitor and trace acceptance only",
     "chan_mo_necessary (coq/C01/ProofsView.v): with the store of write_cursor relaxed the model delivers the slot's previous content (NULL) under a concrete schedule, with the code's orders the same schedule delivers the message",
@@ -174,7 +185,8 @@ def dispatch_tables(ctx):
     except Exception as e:       # an unbuildable probe is a failed obligation, not a default
         return ("Definition code_dispatch_table : list dispatch_row := [].\n"
                 "Definition code_capacity_table : list (Z * Z * Z * Z * Z * Z) := [].\n"
-                "Definition code_pow2_table : list (Z * Z) := [].\n",
+                "Definition code_pow2_table : list (Z * Z) := [].\n"
+                "Definition code_field_widths : list (nat * Z * bool * bool) := [].\n",
                 ["(* dispatch probe could not be built or run: %s *)" % str(e)[:200].replace("*)", "* )")])
     addr, byaddr = {}, {}
     for ln in nmout.split("\n"):
@@ -189,7 +201,7 @@ def dispatch_tables(ctx):
             return None
         names = [n for n in byaddr.get(base + off, []) if n.startswith("muggle_channel_")]
         return names[0] if len(names) == 1 else None
-    drows, crows, nrows = [], [], []
+    drows, crows, nrows, wrows = [], [], [], []
     for ln in out.split("\n"):
         w = ln.split()
         if not w:
@@ -203,6 +215,8 @@ def dispatch_tables(ctx):
             crows.append("(%s)" % ", ".join(w[1:]))
         elif w[0] == "N" and len(w) == 3:
             nrows.append("(%s, %s)" % (w[1], w[2]))
+        elif w[0] == "W" and len(w) == 5:
+            wrows.append("(%s%%nat, %s, %s, %s)" % (w[1], w[2], "true" if w[3] == "1" else "false", "true" if w[4] == "1" else "false"))
     if rc != 0 or len(drows) != 512:
         notes.append("(* dispatch probe: exit %d, %d of 512 flag rows *)" % (rc, len(drows)))
 
@@ -213,7 +227,10 @@ def dispatch_tables(ctx):
            "(* (requested capacity, return value, capacity, write_cursor, read_cursor, cached_r_cur) *)\n"
            "Definition code_capacity_table : list (Z * Z * Z * Z * Z * Z) :=\n  " + lst(crows, 6) + ".\n"
            "(* (x, (muggle_sync_t)muggle_next_pow_of_2(x)) around every power of two *)\n"
-           "Definition code_pow2_table : list (Z * Z) :=\n  " + lst(nrows, 8) + ".\n")
+           "Definition code_pow2_table : list (Z * Z) :=\n  " + lst(nrows, 8) + ".\n"
+           "(* (field id, sizeof, signed, integer type) of the cursor / counter fields of muggle_channel_t,\n"
+           "   muggle_array_blocking_queue_t, muggle_double_buffer_t / muggle_single_buffer_t and of the slot element types *)\n"
+           "Definition code_field_widths : list (nat * Z * bool * bool) :=\n  " + lst(wrows, 4) + ".\n")
     return txt, notes
 
 
@@ -230,11 +247,51 @@ def gen_params(ctx):
             fields.append("%s := %s" % (f, MO.get(next(iter(mos)), "MoNone")))
     tables, tnotes = dispatch_tables(ctx)
     notes += tnotes
+    # source scan (AST based): the channel / queue / double buffer never look at a payload value
+    from props import c01_scan
+    hits, err = c01_scan.scan()
+    if err:
+        notes.append("(* payload scan failed: %s *)" % err.replace("*)", "* )"))
+    for h in hits[:20]:
+        notes.append("(* payload value inspected: %s *)" % h.replace("*)", "* )"))
+    tables += ("(* AST scan (lib/props/c01_scan.py) of channel.c, array_blocking_queue.c, double_buffer.c: number of places where a\n"
+               "   payload value (slot member data / datas[i], a void* parameter, a local assigned from one) is compared, tested for\n"
+               "   truth, converted to an integer, dereferenced, used in arithmetic or handed to a function outside these files;\n"
+               "   999 = the scan could not be done *)\n"
+               "Definition code_payload_tests : nat := %d.\n" % (999 if err else len(hits)))
+    tables += _sliced_functions()
     return ("(* generated by lib/props/c01.py from the memory orders observed at each atomic site of\n"
             "   channel.c / spinlock.c / synclock.c on this run, and from muggle_channel_init run for every\n"
             "   flags value and requested capacity (harness/drivers/c01_dispatch.c); do not edit *)\n"
             "From MV Require Import C01.Model C01.Dispatch.\nLocal Open Scope Z_scope.\n" + "\n".join(notes) + ("\n" if notes else "") +
             "Definition code_params : params :=\n  {| " + ";\n     ".join(fields) + " |}.\n" + tables)
+
+
+SLICED = [("muggle/c/sync/channel.c", "muggle_channel_" + f, "gen_chan_" + f) for f in
+          ("write_sync", "wake_sync", "read_sync", "write_mutex", "wake_mutex", "read_mutex",
+           "write_busy", "wake_busy", "read_busy", "write", "read")] + \
+         [("muggle/c/sync/array_blocking_queue.c", "muggle_array_blocking_queue_" + f, "gen_abq_" + f) for f in
+          ("put", "take")]
+
+
+def _sliced_functions():
+    """Second tie (DESIGN.md 4.4): the bodies of the channel's write / wake / read variants and of the public
+    wrappers, sliced out of the clang AST of the C text of this run (lib/props/c01_slice.py) and translated by the
+    shared translator lib/leaftrans.py.  A function that cannot be sliced is missing from the file: the obligation
+    that mentions it breaks."""
+    import leaftrans as L
+    from props import c01_slice as S
+    out = ["", "(* --- function bodies re-translated from muggle/c/sync/channel.c and array_blocking_queue.c on this run (lib/props/c01_slice.py) --- *)",
+           "From MV Require Import Lib.Leaf."]
+    flags = ["-std=gnu11", "-I" + V.REPO, "-I" + V.GEN_INC, "-DNDEBUG"]
+    for rel, cname, gname in SLICED:
+        try:
+            out.append(S.translate_sliced(os.path.join(V.REPO, rel), cname, flags, gname)[0])
+        except L.LeafError as e:
+            out.append("(* slicer / translator error for %s: %s *)\n" % (cname, str(e).replace("*)", "* )")))
+        except Exception as e:      # a broken AST must break the obligation, not the machinery
+            out.append("(* slicer failure for %s: %s *)\n" % (cname, str(e)[:200].replace("*)", "* )")))
+    return "\n".join(out) + "\n"
 
 
 # ---------------------------------------------------------------------------
@@ -252,6 +309,58 @@ def _chan(name, wk, rm, cap, ks, sched, nread=None, maxtry=None):
     if maxtry:
         lines.append("maxtry %d" % maxtry)
     lines.append("sched " + sched)
+    return V.Case(name, lines, {"scen": lines[0]})
+
+
+# pointer values a message can carry (codes shared with c01_driver.c and coq/C01/Model.v g_val): a message is an
+# opaque void* for the channel
+V_NULL, V_MINUS1 = -1, -3
+
+
+def v_int(n):
+    return -10 - n
+
+
+def v_shared(k):
+    return 9000 + k
+
+
+def val_kind(code):
+    return ("NULL" if code == V_NULL else "(void*)-1" if code == V_MINUS1 else "small-int" if code <= -10
+            else "shared-object" if code >= 9000 else "own-object")
+
+
+def case_vals(case):
+    """tag -> value code from the 'v' lines of a case"""
+    vals = {}
+    for ln in case.lines:
+        w = ln.split()
+        if w and w[0] == "v":
+            for p in w[1:]:
+                a, b = p.split(":")
+                vals[int(a)] = int(b)
+    return vals
+
+
+def _with_vals(case, rng, cap, ks, dense=False):
+    """Adversarial message values: NULL, (void*)-1, small integers equal to cursor values / the capacity, one shared
+    object carried by several messages (repeats); the first message of writer 1 is NULL in half of the cases (an
+    unwritten slot also reads as NULL)."""
+    c2 = next_pow2(cap)
+    pool = [V_NULL, V_NULL, V_MINUS1, v_int(1), v_int(c2), v_int(max(1, c2 - 1)), v_int(rng.range(1, c2)),
+            v_shared(0), v_shared(0), v_shared(rng.below(8))]
+    ps = []
+    for i, k in enumerate(ks):
+        for j in range(k):
+            if rng.chance(2 if dense else 1, 3) or (i == 0 and j == 0 and rng.chance(1, 2)):
+                ps.append("%d:%d" % ((i + 1) * 100 + j, rng.choice(pool)))
+    if ps:
+        case.lines.insert(1, "v " + " ".join(ps))
+    return case
+
+
+def _bigfill(name, flags, cap, drain):
+    lines = ["bigfill %d %d %d" % (flags, cap, drain)]
     return V.Case(name, lines, {"scen": lines[0]})
 
 
@@ -366,6 +475,13 @@ def generate(rng, tier):
                         cases.append(_chan("chan-%s-%s-%d-%d-%d" % (wk, rm, cap, nw, n), wk, rm, cap, ks,
                                            "rand %d %d %d %d%s" % (rng.below(1 << 30), stick, spur, cvspur, fut)))
                         n += 1
+    # adversarial message values in a third of these scenarios (own stream: the schedules above stay as they were)
+    vrng = rng.fork("values")
+    for c in cases:
+        if vrng.chance(1, 3):
+            w = c.lines[0].split()
+            _with_vals(c, vrng, int(w[3]), [int(x) for x in w[5:]])
+    cases += _big_cases(rng.fork("big"), tier)
     # every flags BYTE muggle_channel_init distinguishes (16 writer selectors x 16 reader selectors: the 12 valid
     # combinations, the invalid ones that fall back to a mutex) with >= 2 concurrent writers, and flags with higher
     # bits set (not looked at by init)
@@ -394,6 +510,70 @@ def generate(rng, tier):
 
 COVER_CAPS = (1, 2, 3, 4, 8)
 _COVER = {}
+BIG_CAPS = (16, 17, 31, 32, 33, 64)      # requested; rounded 16, 32, 64 (usable 14, 30, 62)
+
+
+def _split(total, nw, rng, maxk=64):
+    ks = [total // nw] * nw
+    for i in range(total - sum(ks)):
+        ks[i % nw] += 1
+    return [min(maxk, k) for k in ks]
+
+
+def _big_cases(rng, tier, prefix="big", search=False):
+    """Capacities 16..64 with backlogs up to capacity - 2 (FULL at the largest capacity must occur), readers that
+    stop early (nread < accepted) and writers that give up (maxtry):
+      stop   the reader reads a few messages and leaves; the writers fill the ring to capacity - 2 unread, are
+             refused and give up after maxtry FULL results (any schedule)
+      first  list schedule: the writers run first (each until it has sent its share / is refused), the reader drains
+             afterwards: the backlog reaches capacity - 2 with the reader asleep or spinning, then wraps twice
+      mix    random schedule, writers never give up, the reader stops early or drains"""
+    out = []
+    reps = 1 if tier == "quick" else 6
+    n = 0
+    for wk in WKINDS:
+        for rm in RMODES:
+            for cap in BIG_CAPS:
+                c2 = next_pow2(cap)
+                usable = c2 - 2
+                for fam in ("stop", "first", "mix"):
+                    if tier == "quick" and not search and fam == "mix" and cap not in (16, 64):
+                        continue
+                    for rep in range(reps):
+                        nw = 1 if wk == "single" else rng.range(2, 4)
+                        spur = rng.choice([0, 30]) if wk == "sync" else 0
+                        cvspur = rng.choice([0, 20]) if rm == "mutex" else 0
+                        fut = " %d %d" % (rng.choice([0, 20]), rng.choice([0, 20])) if (rm == "sync" or wk == "sync") and rng.chance(1, 2) else ""
+                        rnd = "rand %d %d %d %d%s" % (rng.below(1 << 30), rng.choice([20, 50, 80, 95]), spur, cvspur, fut)
+                        if fam == "stop":
+                            nread = rng.range(0, 5)
+                            total = min(64 * nw, usable + nread + rng.range(2, 6))
+                            c = _chan("%s-stop-%s-%s-%d-%d" % (prefix, wk, rm, cap, n), wk, rm, cap, _split(total, nw, rng), rnd,
+                                      nread=nread, maxtry=rng.range(1, 3))
+                        elif fam == "first":
+                            total = min(64 * nw, usable + rng.range(3, usable))
+                            ks = _split(total, nw, rng)
+                            # the writers run first, round robin among themselves (a refused writer spins on its retry
+                            # point; a listed thread that is blocked or has finished hands its turn to the reader), then
+                            # the reader drains (list exhausted: round robin over all threads)
+                            order = [str(1 + i % nw) for i in range(min(1500, 10 * total + 20))] + ["0"] * 40
+                            c = _chan("%s-first-%s-%s-%d-%d" % (prefix, wk, rm, cap, n), wk, rm, cap, ks, "list - " + " ".join(order))
+                        else:
+                            total = min(64 * nw, 2 * c2 + rng.range(0, 9))
+                            ks = _split(total, nw, rng)
+                            stop = rng.chance(1, 2)
+                            c = _chan("%s-mix-%s-%s-%d-%d" % (prefix, wk, rm, cap, n), wk, rm, cap, ks, rnd,
+                                      nread=(rng.range(1, usable) if stop else None), maxtry=(rng.range(2, 4) if stop else None))
+                        if rng.chance(1, 4):
+                            w = c.lines[0].split()
+                            _with_vals(c, rng, cap, [int(x) for x in w[5:]])
+                        out.append(c)
+                        n += 1
+    # cursors beyond 2^16: single-threaded fill / drain of rings of 2^17 slots (and small ones) in every reader mode
+    for flags, cap, drain in ((0x23, 1 << 17, 70000), (0x03, 1 << 17, 5), (0x13, 65537, 65536), (0x21, 70000, 1),
+                              (0x22, 65536, 65534), (0x23, 4096, 100), (0x20, 3, 1), (0x03, 300, 298)):
+        out.append(_bigfill("%s-fill-%d-%d" % (prefix, flags, cap), flags, cap, drain))
+    return out
 
 
 WINDOWS = {
@@ -527,6 +707,12 @@ def search(rng, diverging, tier):
                          "rand %d %d %d %d %d %d" % (rng.below(1 << 30), rng.choice([10, 30, 50, 80, 95]),
                                                      rng.choice([0, 20, 50]), rng.choice([0, 30]),
                                                      rng.choice([0, 30]), rng.choice([0, 30]))))
+    vrng = rng.fork("values")
+    for c in out:
+        if vrng.chance(1, 2):
+            w = c.lines[0].split()
+            _with_vals(c, vrng, int(w[3]), [int(x) for x in w[5:]], dense=True)
+    out += _big_cases(rng.fork("big"), "thorough", prefix="search-big", search=True)
     # every flags byte with 2..4 concurrent writers under dense context switching: a writer-lock selector that no
     # longer selects a lock shows as a lost / duplicated message
     out += _flag_cases(rng, "search-flags", list(range(256)), 6, (10, 20, 30, 50), nws=(2, 3, 4), search=True)
@@ -555,15 +741,18 @@ def model_cases(cases, impl_results):
 
 def model_search(ctx):
     """A proof obligation about the memory orders broke: x86 under a serialised run cannot show the
-    effect, so look for a history of the MODEL, with the parameters extracted from the code, in which
-    the hand-over is unsound (uncovered plain read / stale delivery)."""
+    effect, so look for a history of the MODEL (channel model x read-before-overwrite observer), with the
+    parameters extracted from the code, in which the hand-over is unsound (uncovered plain read / stale
+    delivery / slot store not ordered after the read of the slot's previous message)."""
     txt = open(os.path.join(V.COQ, "gen", "Params_C01.v")).read()
     vals = []
     for f in FIELDS:
         m = re.search(r"%s := (\w+)" % f, txt)
         vals.append(m.group(1) if m else "MoNone")
     scens = ["chan spin sync 4 3 2 1", "chan sync sync 4 3 2 1", "chan single busy 4 4 4", "chan spin busy 4 4 2 2",
-             "chan sync busy 3 4 2 2", "chan single sync 3 3 3"]
+             "chan sync busy 3 4 2 2", "chan single sync 3 3 3",
+             # enough messages to reuse a slot (read-before-overwrite needs a second lap)
+             "chan single sync 4 6 6", "chan single busy 4 6 6", "chan spin sync 3 6 3 3", "chan sync busy 4 7 4 3"]
     cases = [V.Case("modelsearch-%d" % i, [s, "params " + " ".join(vals), "explore %d 400" % (ctx.seed + i)])
              for i, s in enumerate(scens)]
     res = ctx.run_model(cases)
@@ -583,7 +772,10 @@ def monitor(case, lines):
     scen = case.lines[0].split()
     if any(ln.startswith("modelsched") for ln in case.lines):
         return ("model-level counterexample recorded in this case (memory orders as extracted from the code when it was "
-                "found): a delivery without happens-before edge exists in the view model; see the model output")
+                "found): a delivery without happens-before edge, or a slot store not ordered after the read of the slot's "
+                "previous message, exists in the view model; see the model output")
+    if scen[0] == "bigfill":
+        return _mon_bigfill(scen, lines)
     for ln in lines:
         if ln.startswith("DEADLOCK") or ln.startswith("LIVELOCK"):
             # a channel that lost or duplicated a message usually ends with the reader waiting for ever: name the
@@ -601,7 +793,7 @@ def monitor(case, lines):
     if hb:
         return hb
     if scen[0] in ("chan", "chanflags"):
-        return _mon_chan(chan_scen(scen), case, lines)
+        return _mon_rdhb(chan_scen(scen), lines) or _mon_chan(chan_scen(scen), case, lines)
     if scen[0] == "abq":
         return _mon_abq(scen, lines)
     if scen[0] == "dbuf":
@@ -679,11 +871,93 @@ def _mon_hb(lines):
     return None
 
 
+def _valtxt(v):
+    return ("NULL" if v == -1 else "(void*)-1" if v == -3 else "an unknown pointer" if v == -2 else
+            "the small integer %d" % (-10 - v) if v <= -10 else "the shared object %d" % (v - 9000) if v >= 9000
+            else "the payload of message %d" % v)
+
+
+def _mon_bigfill(scen, lines):
+    """single-threaded fill / drain of a large ring: refused exactly at capacity - 2 unread, everything read back in
+    order (independent of the model: from the documented ring arithmetic)"""
+    flags, req, drain = int(scen[1]), int(scen[2]), int(scen[3])
+    cap = next_pow2(req)
+    usable = max(0, cap - 2)
+    if not lines or lines[0] != "F init 0 cap=%d" % cap:
+        return "init: %r, expected capacity %d" % (lines[0] if lines else None, cap)
+    m = re.match(r"F big fill1=(\d+) refused=(\d) fill2=(\d+) read=(\d+) bad=(-?\d+) wcur=(\d+) rcur=(\d+)$", lines[-1])
+    if not m:
+        return "no summary line: %r" % lines[-1]
+    f1, ref, f2, rd, bad, wc, rc = [int(x) for x in m.groups()]
+    d = min(drain, usable)
+    if f1 != usable:
+        return ("single writer, nothing read: the write was refused as FULL after %d accepted messages; the ring of %d slots "
+                "holds %d (flags 0x%x)" % (f1, cap, usable, flags))
+    if ref != 1:
+        return "a second write at a full ring was accepted"
+    if bad != -1:
+        return "read number %d did not return message %d (order / overwrite)" % (bad, bad)
+    if f2 != d:
+        return "after reading %d of %d messages the writer was refused after %d further messages (expected %d)" % (d, usable, f2, d)
+    if rd != f1 + f2:
+        return "read %d messages of %d accepted" % (rd, f1 + f2)
+    if wc != (f1 + f2) % cap or rc != (f1 + f2 - 1) % cap:
+        return "final cursors %d / %d differ from accepted mod capacity / (read - 1) mod capacity" % (wc, rc)
+    return None
+
+
+def _mon_rdhb(scen, lines):
+    """Read-before-overwrite (the consumer side of the hand-over): when a writer stores into a slot, the reader's
+    read of the message that was in that slot before must be ordered before the store.  From the trace: the reader's
+    store of read_cursor after its k-th slot read must be a release (or stronger) store, and the writer that reuses the
+    slot must have read a read_cursor value stored at or after that one (its own load, or through the writer lock /
+    the cached cursor; the writer's load is taken as the acquiring side whatever its memory order: the library loads
+    it relaxed, which is recorded as an observation).  Mutex reader mode: ordered by read_mutex (checked by lock order)."""
+    rm, cap = scen[2], next_pow2(int(scen[3]))
+    if rm == "mutex" or cap <= 2:
+        return None
+    REL = ("rel", "acqrel", "sc")
+    reads_committed = 0          # reader slot reads whose read_cursor store happened
+    published_upto = 0           # reads published by a release store of read_cursor (release sequence broken by rlx)
+    seen = {}                    # writer -> reads it knows to be complete
+    lock_seen = 0                # knowledge handed over through the writer lock / the cached cursor
+    holder_known = {}
+    nstores = 0
+    for ln in lines:
+        w = ln.split()
+        if not w or w[0] != "E":
+            continue
+        t, op, cell, mo = w[1], w[2], w[3], w[4]
+        if cell == "rcur" and op == "store":
+            reads_committed += 1
+            published_upto = reads_committed if mo in REL else 0
+        elif cell == "rcur" and op == "load":
+            seen[t] = max(seen.get(t, 0), published_upto)
+            lock_seen = max(lock_seen, seen[t])       # the cached cursor / the lock hand the knowledge on
+        elif cell == "wcur" and op == "store":
+            # publication number nstores (0-based) reuses the slot of publication nstores - cap: read number
+            # nstores - cap + 1 (1-based) must be known complete to this writer
+            need = nstores - cap + 1
+            know = max(seen.get(t, 0), lock_seen)
+            if need > 0 and know < need:
+                return ("writer %s stored message number %d into slot %d although the reader's read of the previous message "
+                        "in that slot (read number %d) is not ordered before the store: read_cursor was stored with memory "
+                        "order weaker than release (or never loaded): no happens-before from the slot read to the overwrite"
+                        % (t, nstores, nstores % cap, need))
+            nstores += 1
+    del holder_known
+    return None
+
+
 def _mon_chan(scen, case, lines, totals=True):
     wk, rm, reqcap, nread = scen[1], scen[2], int(scen[3]), int(scen[4])
     ks = [int(x) for x in scen[5:]]
     cap = next_pow2(reqcap)
     usable = max(0, cap - 2)
+    vals = case_vals(case)
+
+    def val_of(tag):
+        return vals.get(tag, tag)
     if not lines[0].endswith("cap=%d" % cap):
         return "capacity after rounding: %s, expected %d" % (lines[0], cap)
     # pass 1: result of every muggle_channel_write call per thread, in call order
@@ -768,21 +1042,23 @@ def _mon_chan(scen, case, lines, totals=True):
             elif what == "err":
                 return "muggle_channel_write returned error %d" % v
             elif what == "got":
+                # v is the canonical code of the pointer VALUE received; the message it must be is the k-th published
                 k = len(delivered)
-                delivered.append(v)
-                if v < 0:
-                    return ("read %d returned %s as data: not a message any writer wrote" % (
-                        k, "NULL" if v == -1 else "an unknown pointer"))
                 if k >= len(published):
-                    return "read %d returned %d but only %d messages had been published" % (k, v, len(published))
-                if published[k] != v:
-                    return ("read %d returned message %d; publication order says %d (delivered so far %s, published %s)" % (
-                        k, v, published[k], delivered, published))
+                    return "read %d returned %s but only %d messages had been published" % (k, _valtxt(v), len(published))
+                want = val_of(published[k])
+                if v != want:
+                    return ("read %d returned %s; publication order says message %d carrying %s (delivered so far %s, "
+                            "published %s)" % (k, _valtxt(v), published[k], _valtxt(want), delivered, published))
+                delivered.append(published[k])
                 pending_fld = v
             elif what == "fld":
-                if pending_fld is None or v != pending_fld + 1000:
-                    return "payload field of message %s read as %d, the producer wrote %s" % (
-                        pending_fld, v, None if pending_fld is None else pending_fld + 1000)
+                # dereferenced only when the value is a harness object: own payload (tag + 1000, written by the
+                # producer before the hand-over), shared object (code + 1000); otherwise reported as -1
+                want = None if pending_fld is None else (pending_fld + 1000 if pending_fld >= 0 else -1)
+                if want is None or v != want:
+                    return "payload field behind %s read as %d, expected %s" % (
+                        None if pending_fld is None else _valtxt(pending_fld), v, want)
                 pending_fld = None
     # totals
     if not totals:
@@ -1019,6 +1295,33 @@ def tally(dist, case, lines):
             dist["guided_targeted"] = dist.get("guided_targeted", 0) + 1
         if guided and case.meta.get("target") in windows_of_trace(case, lines):
             dist["guided_target_hit"] = dist.get("guided_target_hit", 0) + 1
+    if scen[0] == "chan":
+        c2 = next_pow2(int(scen[3]))
+        nfull = sum(1 for ln in lines if ln.startswith("R ") and " full " in ln)
+        ngive = sum(1 for ln in lines if ln.startswith("R ") and " giveup " in ln)
+        noks = sum(1 for ln in lines if ln.startswith("R ") and " ok " in ln)
+        if c2 >= 16:
+            dist["capacity_%d_scenarios" % c2] = dist.get("capacity_%d_scenarios" % c2, 0) + 1
+            if nfull:
+                # the monitor has checked that every FULL happened at capacity - 2 unread: the backlog was reached
+                dist["capacity_%d_scenarios_with_FULL_at_%d_unread" % (c2, c2 - 2)] = \
+                    dist.get("capacity_%d_scenarios_with_FULL_at_%d_unread" % (c2, c2 - 2), 0) + 1
+        if c2 > 2 and int(scen[4]) < noks:
+            dist["reader_stops_early"] = dist.get("reader_stops_early", 0) + 1
+        if c2 > 2 and ngive:
+            dist["writer_gives_up_ring_not_degenerate"] = dist.get("writer_gives_up_ring_not_degenerate", 0) + 1
+        for code in case_vals(case).values():
+            kk = "message_value_" + val_kind(code)
+            dist[kk] = dist.get(kk, 0) + 1
+        for ln in lines:
+            if ln.startswith("R 0 got "):
+                v = int(ln.split()[3])
+                if v < 0 or v >= 9000:
+                    kk = "delivered_value_" + val_kind(v)
+                    dist[kk] = dist.get(kk, 0) + 1
+    if raw[0] == "bigfill":
+        if next_pow2(int(raw[2])) > 65536:
+            dist["bigfill_cursors_beyond_65536"] = dist.get("bigfill_cursors_beyond_65536", 0) + 1
     k = raw[0] + ("-%s-%s" % (scen[1], scen[2]) if scen[0] == "chan" else "")
     dist[k] = dist.get(k, 0) + 1
     dist["events"] = dist.get("events", 0) + sum(1 for ln in lines if ln.startswith("E "))
